@@ -163,7 +163,7 @@ def run(ctx):
             # coverage by LENGTH (edge coverage stays at its default 1): a constraint relaxed this way may be satisfied
             # without containing all of its edges -- those edges must nevertheless be covered
             for e in G.edges():
-                G.edges[e]["len"] = rng.choice([1, 1, 5, 5, 2])
+                G.edges[e]["len"] = rng.choice([1, 1, 5, 5, 2, 0])
             lengths = {e: G.edges[e]["len"] for e in G.edges()}
             cov = rng.choice([0.5, 0.8, 0.75])
             extra = {"length_attr": "len", "subpath_constraints_coverage_length": cov}
